@@ -18,11 +18,12 @@ Definition hdel (k : nat) (h : hdrs) : hdrs := aremove Nat.eqb k h.             
 (* timeouthandler.go:89-92  for k, vv := range tw.h { dst[k] = vv } *)
 Definition hmerge (dst src : hdrs) : hdrs := fold_right (fun kv acc => aset Nat.eqb (fst kv) (snd kv) acc) dst src.
 
-(* The value a handler panics with.  The guards never look inside it, but each of them decides that there IS a
-   panic by `recover() != nil` (recoverhandler.go:13, timeouthandler.go:75, timeoutinterceptor.go:29,
-   crashinterceptor.go handleCrash).  go.mod says `go 1.19`, so the toolchain keeps the pre-1.21 meaning of
-   panic(nil) (GODEBUG panicnil=1 by default): recover() stops the panic and returns nil -- such a panic is
-   invisible to all four tests. *)
+(* The value a handler panics with.  The guards never look inside it, and since 39fe42d they do not even use it to
+   decide that there IS a panic: each of them keeps a `finished` flag that is set after the protected call
+   returned, and treats "not finished" as a panic (recoverhandler.go:15-25, timeouthandler.go:75-88,
+   crashinterceptor.go handleCrash, timeoutinterceptor.go:28-38).  So panic(nil) -- for which recover() returns
+   nil under the module's go 1.19 semantics -- is noticed like any other value.  (A runtime.Goexit() inside a
+   handler leaves `finished` false as well and is therefore treated as a panic; not modelled.) *)
 Inductive pvalue :=
 | PVNil                      (* panic(nil) *)
 | PVString                   (* panic("...") / fmt.Sprintf *)
@@ -31,8 +32,9 @@ Inductive pvalue :=
 | PVStatus (code : nat)      (* an error carrying a gRPC status, e.g. status.Error(codes.NotFound, ...) *)
 | PVAbort                    (* http.ErrAbortHandler *)
 | PVCustom.                  (* any other non-nil value: struct, typed nil pointer, ... *)
-Definition recover_sees (v : pvalue) : bool := match v with PVNil => false | _ => true end.
-(* recoverhandler.go:15  w.WriteHeader(http.StatusInternalServerError) for whatever was recovered *)
+(* does a guard notice a panic carrying v?  `!finished` does not depend on v *)
+Definition recover_sees (v : pvalue) : bool := true.
+(* recoverhandler.go:24  w.WriteHeader(http.StatusInternalServerError) for whatever was recovered *)
 Definition recover_status (v : pvalue) : option Z := if recover_sees v then Some 500 else None.
 (* crashinterceptor.go:30 status.Errorf(codes.Internal, "panic: %v", r) for whatever was recovered *)
 Definition crash_code (v : pvalue) : option nat := if recover_sees v then Some 13%nat else None.
@@ -144,11 +146,9 @@ Definition h_step (recover : bool) (s : state) : option state :=
       | OPanic =>
           let seen := recover_sees (panic_value_of a) in
           if recover
-          then (* recoverhandler.go:13 `if result := recover(); result != nil`: an unseen panic is swallowed, nothing
-                  is written and the middleware returns normally *)
+          then (* recoverhandler.go:16-25 `if finished { return }` ... w.WriteHeader(500): every unfinished call is a panic *)
                Some (mkst t' (st_rw s) (if seen then HRecover else HRun []) (st_done s) (st_panicked s) (st_fired s) (st_sel s) tr)
-          else (* :75-77 `if p := recover(); p != nil { panicChan <- p }`: an unseen panic ends the goroutine with
-                  neither close(done) nor a send -- only ctx.Done() can wake the select *)
+          else (* :77-87 `if finished { return }; p := recover(); if p == nil { p = errNilPanic }; panicChan <- p` *)
                Some (mkst t' (st_rw s) HDead (st_done s) seen (st_fired s) (st_sel s) tr)
       | _ => Some (mkst t' (st_rw s) (HRun rest) (st_done s) (st_panicked s) (st_fired s) (st_sel s) tr)
       end
@@ -261,7 +261,7 @@ Fixpoint direct_run (recover : bool) (w : rwriter) (acts : list action) (tr : li
       | OPanic =>
           let seen := recover_sees (panic_value_of a) in
           if recover then ((if seen then rw_write_header statusInternalServerError w' else w'), tr ++ [o], false)
-          else (w', tr ++ [o], seen)     (* what a caller testing `recover() != nil` notices *)
+          else (w', tr ++ [o], seen)     (* the panic unwinds into the caller of the chain *)
       | _ => direct_run recover w' r (tr ++ [o])
       end
   end.
@@ -343,7 +343,7 @@ Definition rinit (h : hres) : rstate := mkrs (Some h) None false false None None
 Definition rh_step (s : rstate) : option rstate :=
   match rs_pending s with
   | Some (HReturn r c) => Some (mkrs None (Some (r, c)) true (rs_panicked s) (rs_fired s) (rs_out s))
-  | Some (HPanics v) =>       (* :28-33 `if p := recover(); p != nil { panicChan <- ... }`; close(done) is skipped either way *)
+  | Some (HPanics v) =>       (* :28-38 `if finished { return }; p := recover(); panicChan <- fmt.Sprintf(...)`; close(done) is skipped *)
       Some (mkrs None (rs_val s) (rs_done s) (recover_sees v) (rs_fired s) (rs_out s))
   | None => None
   end.
@@ -387,8 +387,7 @@ Definition rpc_direct (crash : bool) (h : hres) : rres :=
   | HPanics v =>
       if recover_sees v
       then if crash then RResult None codeInternal else RPropagatedPanic
-      else RResult None codeOK   (* handleCrash's `recover() != nil` is false: the named results stay (nil, nil);
-                                    without Crash: what a caller testing `recover() != nil` notices *)
+      else RResult None codeOK   (* unreachable since 39fe42d: handleCrash(&finished, ...) converts every unfinished call *)
   end.
 
 (* ------------------------------------------------------------------ several requests through ONE middleware instance *)
